@@ -67,7 +67,7 @@ for sid in sorted(os.listdir(SEEDS)):
         json.dump(meta, f, indent=1)
     outcome = []
     for r in runs:
-        v = {0: "exit 0 (not seen)", 1: "**VIOLATION**", 2: "exit 2 (inconclusive)", 3: "exit 3 (harness error)", 124: "no verdict in 20 min"}.get(r["exit"], "exit %d" % r["exit"])
+        v = {0: "exit 0 (not seen)", 1: "**VIOLATION**", 2: "exit 2 (inconclusive)", 3: "exit 3 (harness error)", 124: "no verdict within the time cap"}.get(r["exit"], "exit %d" % r["exit"])
         if r["exit"] == 1 and not r["violation_lines"]:
             v = "exit 1"
         outcome.append("%s: %s (%d s)" % (r["check"], v, r["wall_s"]))
